@@ -112,7 +112,9 @@ theorem C11_user_panic_log_untouched (env : Env α ρ) (fuel lvl : Nat) (s : Sha
 
 /-- **C11, no user code runs while a lock is held**: every closure passed to `MutexIsh::locked` in
     the crate (table regenerated from the source on every run) is one of the five known closed
-    bodies (take / clone of the log / set flag / push / read flag). -/
-theorem C11_lock_bodies_closed : (Generated.lockSites.all fun c => decide (c < 5)) = true := by decide
+    bodies (take / clone of the error log / set flag / push / read flag; classes 0-4, up to the name of the closure
+    parameter) or — class 5 — another body that only reads, assigns, takes or pushes through its one parameter and calls
+    nothing else (in particular no `clone`, which could be user code). -/
+theorem C11_lock_bodies_closed : (Generated.lockSites.all fun c => decide (c < 6)) = true := by decide
 
 end Unimock
